@@ -304,7 +304,7 @@ class Repo:
       q = scope.qual
       while True:
         cand = q + '.' + head
-        if cand in mod._funcs:
+        if cand in mod._funcs and q in mod._funcs:  # class bodies are not enclosing scopes of their methods
           return mod._funcs[cand]
         if '.' not in q:
           break
